@@ -185,6 +185,9 @@ func TestWorker(t *testing.T) {
 		if sr, ok := e.(SubRunner); ok {
 			if subs := sr.SubRuns(t, job.Batch, func() *rt.Tape { return rt.NewTape(job.Seed, idx+1<<40) }, idx, job.Extra); subs != nil {
 				for si, sub := range subs {
+					if job.SubMod > 1 && si%job.SubMod != job.SubRem {
+						continue
+					}
 					if goOn = runOne(idx, si, sub); !goOn {
 						break
 					}
